@@ -22,6 +22,8 @@ private:
   NodeSubstitutes nodeSubstitutes{};
   NameSubstitutes nameSubstitutes{};
   uint32_t localVarBase{ 0 };
+  std::unordered_set<std::string> userLocals{};
+  bool localsCollected{ false };
 
 public:
   explicit Normalizer(SyntaxTreeContext termFuncs)
@@ -31,6 +33,7 @@ public:
   void Normalize(SyntaxTree::Node& root);
 
 private:
+  void CollectLocals(const SyntaxTree::Node& root);
   void Quantifier(SyntaxTree::Node& quant);
   void Imperative(SyntaxTree::Node& root);
   void Recursion(SyntaxTree::Node& root);
